@@ -227,7 +227,8 @@ def gen_stmt(env, budget, depth):
     if k == 'break':
         return [R.If(gen_cond(env), [R.Break()])], 1
     if k == 'return':
-        return [R.If(gen_cond(env), [R.Return(R.Var(ch.pick(env.vars)) if ch.flag() else None)])], 1
+        # a routine that is used for its value returns a value on every path
+        return [R.If(gen_cond(env), [R.Return(R.Var(ch.pick(env.vars)) if getattr(env, 'returns_value', False) else None)])], 1
     if k == 'call':
         name, np, rv = ch.pick(env.routines)
         args = [env.num('val') if ch.flag() else R.Var(ch.pick(env.vars)) for _ in range(np)]
@@ -295,8 +296,9 @@ def gen_routine(env, budget, depth):
     env.vars = list(params) + ['x']
     env.in_routine = True
     env.loop_depth = 0
-    body, c = gen_block(env, budget, depth, minimum=1)
     rv = ch.flag(0.5)
+    env.returns_value = rv
+    body, c = gen_block(env, budget, depth, minimum=1)
     if rv:
         body = body + [R.Return(R.Bin('+', R.Var(ch.pick(env.vars)), N(value=1)))]
     env.vars, env.in_routine, env.loop_depth = saved
